@@ -2,6 +2,7 @@
 From Coq Require Import ZArith List Bool Permutation Reals QArith.
 From ADV Require Import C17.Model C17.Spec C17.Carriers C17.ProofsMerge C17.ProofsChunks C17.ProofsErr C17.ProofsSites.
 From ADV Require Import C17.ModelCfg C17.ProofsCfg C17.SitesGenDefs C17.Sites_gen C17.ProofsSitesGen.
+From ADV Require Import C17.ModelSaga C17.ProofsSaga.
 Import ListNotations.
 
 (* (1) nothing lost, nothing counted twice: for EVERY pool size k >= 1 (also k larger than the
@@ -161,6 +162,46 @@ Theorem saga_partition_covers :
   exists l, saga_partition threads n = Some l /\ concat (map zr l) = zrange 0 n /\
             Z.of_nat (length l) = Z.min threads n.
 Proof. exact saga_partition_spec. Qed.
+
+(* round 7 - which samples a SAGA epoch evaluates (sagaLogisticRegressionL1.Initialize's sub-slices of Indices read by
+   the workers' Iterate loops): for EVERY pool size, EVERY drawn list (any n >= 1, divisible by the worker count or
+   not, repetitions allowed) the workers' evaluation sequences concatenate to the drawn list - no sample of the epoch
+   is dropped (the remainder n mod p goes to the last worker), none is evaluated twice, min(threads, n) workers *)
+Theorem saga_workers_evaluate_the_drawn_list :
+  forall (threads : Z) (idx : list Z), (1 <= threads)%Z -> idx <> [] ->
+  exists ws, saga_epoch_evals threads idx = Some ws /\ concat ws = idx /\
+             Z.of_nat (length ws) = Z.min threads (Z.of_nat (length idx)).
+Proof. exact saga_workers_spec. Qed.
+
+(* the nil pool (workers in order) logs exactly the drawn list *)
+Theorem saga_sequential_epoch_log :
+  forall (threads : Z) (idx : list Z), (1 <= threads)%Z -> idx <> [] ->
+  saga_epoch_log_sequential threads idx = Some idx.
+Proof. exact saga_sequential_log_spec. Qed.
+
+(* and on a real pool: EVERY complete interleaving of the workers' sequences is a permutation of the drawn list -
+   the multiset of evaluated sample indices of an epoch is the multiset drawn, whatever the schedule *)
+Theorem saga_every_interleaving_evaluates_the_drawn_multiset :
+  forall (threads : Z) (idx : list Z) (sched : list nat) (ws : list (list Z)) (log : list Z),
+    saga_epoch_evals threads idx = Some ws -> (1 <= threads)%Z -> idx <> [] ->
+    saga_interleave sched ws = Some log -> length sched = length idx ->
+    Permutation log idx /\ forall j, countZ j log = countZ j idx.
+Proof. exact saga_interleaving_both. Qed.
+
+(* the decision used by the correspondence is sound *)
+Theorem same_bag_decides_counts :
+  forall a b, same_bag a b = true -> forall x, countZ x a = countZ x b.
+Proof. exact same_bag_sound. Qed.
+
+(* non-vacuity: n = 7, 3 threads (7 mod 3 = 1: slices 2, 2, 3), a complete interleaving; a log without the
+   remainder is rejected; an interleaving that over-draws a worker does not exist *)
+Example saga_epoch_example :
+  saga_epoch_evals 3 ex_idx = Some [[5; 0]; [5; 3]; [6; 1; 1]]%Z /\
+  saga_interleave [2; 0; 2; 1; 1; 0; 2]%nat [[5; 0]; [5; 3]; [6; 1; 1]]%Z = Some [6; 5; 1; 5; 3; 0; 1]%Z /\
+  same_bag [6; 5; 1; 5; 3; 0; 1]%Z ex_idx = true /\
+  same_bag (concat [[5; 0]; [5; 3]; [6; 1]]%Z) ex_idx = false /\
+  saga_interleave [0; 0; 0]%nat [[5; 0]; [5; 3]; [6; 1; 1]]%Z = None.
+Proof. exact saga_example. Qed.
 
 (* (1') the merge theorem PER ACCUMULATOR and PER CONFIGURATION of the optional accumulators of
    BaumWelchStep (pi, tr iff OptimizeTransitions, gamma iff OptimizeEmissions, likelihood) and
